@@ -2,6 +2,8 @@
 package mon
 
 import (
+	"sync"
+	"encoding/hex"
 	"fmt"
 	"math/rand/v2"
 	"path"
@@ -427,6 +429,52 @@ var valueFlags = map[string]map[string]bool{
 	"log":    {"-n": true, "--max-count": true},
 }
 
+// Objects whose ids share their first 32 bits (a birthday search over a few hundred thousand candidates): whatever
+// keys a table by an abbreviated id treats them as one.
+var (
+	twinOnce          sync.Once
+	twinBlobA         []byte // two file contents whose BLOB ids share 8 hex digits
+	twinBlobB         []byte
+	twinTreeA         []byte // two contents of a file "f" such that the TREES {f} share 8 hex digits
+	twinTreeB         []byte
+	twinBlobs, twinTs bool
+)
+
+func idTwins() {
+	twinOnce.Do(func() {
+		seen := map[string]int{}
+		for n := 0; n < 1_500_000 && !twinBlobs; n++ {
+			c := []byte(fmt.Sprintf("note %d\n", n))
+			p := gitfmt.BlobID(c)[:8]
+			if m, ok := seen[p]; ok {
+				twinBlobA, twinBlobB, twinBlobs = []byte(fmt.Sprintf("note %d\n", m)), c, true
+			}
+			seen[p] = n
+		}
+		seen = map[string]int{}
+		treeOf := func(n int) string {
+			raw, _ := hex.DecodeString(gitfmt.BlobID([]byte(fmt.Sprintf("twin %d\n", n))))
+			return gitfmt.ObjectID("tree", append([]byte("100644 f\x00"), raw...))
+		}
+		for n := 0; n < 1_500_000 && !twinTs; n++ {
+			p := treeOf(n)[:8]
+			if m, ok := seen[p]; ok {
+				twinTreeA, twinTreeB, twinTs = []byte(fmt.Sprintf("twin %d\n", m)), []byte(fmt.Sprintf("twin %d\n", n)), true
+			}
+			seen[p] = n
+		}
+	})
+}
+
+var boolFlags = map[string]map[string]bool{
+	"config":   {"--global": true},
+	"restore":  {"--staged": true},
+	"reset":    {"--soft": true, "--mixed": true, "--hard": true},
+	"branch":   {"--list": true},
+	"cat-file": {"--type": true, "--print": true},
+	"rm":       {"--rec": true},
+}
+
 func ParseArgv(argv []string) Parsed {
 	p := Parsed{Flags: map[string]string{}}
 	if len(argv) == 0 {
@@ -442,6 +490,16 @@ func ParseArgv(argv []string) Parsed {
 		}
 		if strings.HasPrefix(a, "-") && len(a) > 1 {
 			if eq := strings.Index(a, "="); eq > 0 && strings.HasPrefix(a, "--") {
+				if boolFlags[p.Cmd][a[:eq]] {
+					// a boolean flag with an explicit value: "=false" is the same as leaving the flag out
+					switch a[eq+1:] {
+					case "1", "t", "T", "true", "TRUE", "True":
+						p.Flags[a[:eq]] = ""
+						continue
+					case "0", "f", "F", "false", "FALSE", "False":
+						continue
+					}
+				}
 				p.Flags[a[:eq]] = a[eq+1:]
 				continue
 			}
